@@ -426,3 +426,262 @@ def fail_class(detail):
     if "file" in detail:
         return "dump"
     return "other"
+
+
+# ------------------------------------------------------------------------------------------------ the check
+MY_COQ = r"(FtocAbi|FtocAbiProofs|Properties_C20f|Gen_C20f)\.v"
+LINK_KEYS = {"cg_field_id_f_": "cgns_f.F90:cg_field_id_f:link-name-has-no-definition",
+             "cg_1to1_id_f_": "cgns_f.F90:cg_1to1_id_f:link-name-has-no-definition",
+             "cg_state_size_f_": "cgns_f.F90:cg_state_size_f:link-name-has-no-definition"}
+
+
+def pregen():
+    """Gen_C20f.v needs the preprocessed module, i.e. the configuration header of the Fortran-enabled build"""
+    vlib.build_impl()
+    build_fortran_impl()
+    c20f_iface.write_gen(repo=vlib.REPO, impl=vlib.IMPL, implf=IMPLF)
+
+
+def presetup():
+    build_driver()
+    vlib.build_harness("c20f_ref", ["c20f_ref.c"])
+
+
+def coq_bad_rows(work):
+    p = os.path.join(work, "c20f_bad.v")
+    open(p, "w").write("From Coq Require Import List String.\nFrom CgnsV Require Import Ftoc FtocAbi Gen_C20f.\n"
+                       "Eval vm_compute in (abi_bad_rows abi_table).\n")
+    with vlib.Lock("coq"):
+        rc, out = vlib.sh(["timeout", "600", "coqc", "-Q", vlib.COQ, "CgnsV", "-w", vlib.COQ_WARN, p], cwd=work)
+    if rc != 0:
+        return None, out[-800:]
+    return sorted(set(re.findall(r'"([^"]+)"%string', out))), None
+
+
+def corpus_scripts():
+    out = []
+    for sub in ("C20", "C20f"):
+        d = os.path.join(vlib.ROOT, "corpus", sub)
+        if os.path.isdir(d):
+            for fn_ in sorted(os.listdir(d)):
+                if fn_.endswith(".script"):
+                    ls = [l.strip() for l in open(os.path.join(d, fn_)) if l.strip() and not l.startswith("#")]
+                    out.append((sub + "/" + fn_, [l for l in ls if l.split()[0] != "state_size"]))
+    return out
+
+
+def shrink(exes, script, work, backend, detail):
+    cls = fail_class(detail)
+
+    def f(sub):
+        fl_, d_ = three_fails(exes, sub, work, "shrink", backend, known_out={})
+        return fl_ is True and fail_class(d_) == cls
+    small = vlib.ddmin(script, f, max_tests=100)
+    _, d2 = three_fails(exes, small, work, "shrink", backend, known_out={})
+    return small, d2 or detail
+
+
+def run_extra(ck, standalone=False):
+    """the C20f layer; called by checks/C20.py after its own run (or by run() below)."""
+    t0 = time.time()
+    big = ck.tier == "thorough"
+    ex = {"fortran_compiler": GFORTRAN, "build_dir": IMPLF}
+    ck.extra["c20f"] = ex
+    n_before = len(ck.violations)
+    vlib.build_impl()
+    tb = time.time()
+    lib, out = build_fortran_impl()
+    ex["fortran_build_wall_s"] = round(time.time() - tb, 1)
+    ex["sanitizers"] = "C part of libcgns.a, harnesses and the Fortran driver: -fsanitize=address,undefined; cgns_f.F90: -O1 -g (no sanitizer)"
+    if lib is None:
+        # the working tree no longer builds with the Fortran interface on (e.g. cgns_f.F90 does not compile)
+        errs = [l for l in out.split("\n") if "Error" in l or "error:" in l][:6]
+        ck.violation({"level": "fortran-build", "oracle": "the working tree builds with -DCGNS_ENABLE_FORTRAN=ON (gfortran-12)",
+                      "errors": errs, "log_tail": out[-1500:]})
+        return
+    # ---- tie T + kernel
+    info, ifaces, modprocs, wr = c20f_iface.write_gen(repo=vlib.REPO, impl=vlib.IMPL, implf=IMPLF)
+    ex["translator"] = {k: info[k] for k in ("module_level_interfaces", "nested_interfaces", "paired_with_wrapper", "paired_with_c_api",
+                                            "no_c_definition_found", "module_procedures", "rows", "parse_problems", "gen_sha1")}
+    ex["translator"]["wrappers_without_interface"] = len(info["wrappers_without_interface"])
+    res = vlib.coq_check_properties("C20f")
+    n = len(res["theorems"])
+    ck.cov["obligations"] += n
+    ck.cov["discharged"] += n if res["ok"] else max(0, n - max(1, len(res["failed"])))
+    broken = res["failed"]
+    ex["theorems"] = res["theorems"]
+    ex["print_assumptions"] = res["assumptions"]
+    ex["coq_wall_s"] = round(res.get("wall_s", 0), 1)
+    if standalone:
+        ck.cov["checker_cmd"] = CHECKER
+        ck.extra["print_assumptions"] = res["assumptions"]
+        ck.extra["theorems"] = res["theorems"]
+    forb = [h for h in vlib.coq_forbidden_scan() if re.match(MY_COQ, h)]
+    ex["forbidden_tokens"] = forb
+    if forb:
+        ck.violation({"broken_obligation": "forbidden tokens in the C20f Coq files", "hits": forb}, nofail=True)
+    bad, err = coq_bad_rows(ck.work)
+    ex["rows_failing_abi_ok"] = bad if bad is not None else "could not be evaluated: %s" % err
+    known_static = {"cg_bcdataset_info_f", "cg_field_id_f", "cg_1to1_id_f", "cg_state_size_f"}
+    new_bad = [b for b in (bad or []) if b not in known_static]
+    ex["static_findings"] = [{"row": b, "listed_in": "FtocAbi.abi_known"} for b in (bad or []) if b in known_static]
+
+    # ---- harnesses
+    ref = vlib.build_harness("c20f_ref", ["c20f_ref.c"])
+    drv, derr = build_driver()
+    if drv is None:
+        ck.violation({"level": "fortran-compile", "oracle": "a Fortran program using the documented calls of the API compiles and links against "
+                      "cgns.mod / libcgns.a of the working tree", "compiler_output": derr[-2500:]})
+        return
+    exes = {"F": drv, "ref": ref}
+    found_fail = False
+
+    # ---- every interface body / every undeclared wrapper links
+    implicit = sorted(info["wrappers_without_interface"])
+    la = run_linkall(ifaces, implicit, ck.work)
+    ex["linkall"] = {k: la[k] for k in ("checked", "skipped", "undefined")}
+    ck.cov["evaluations"] += la["checked"]
+    for sym in la["undefined"]:
+        key = LINK_KEYS.get(sym, "cgns_f.F90:%s:link-name-has-no-definition" % sym.rstrip("_"))
+        ck.case("link:" + sym)
+        if ck.finding(key, {"level": "link", "symbol": sym, "oracle": "a Fortran program that calls the routine through the module links "
+                            "against libcgns.a (the C function is reachable at all)",
+                            "witness": "program p; use cgns; ...; call %s(...); end  ->  ld: undefined reference to `%s'" % (sym.rstrip("_"), sym)}):
+            found_fail = True
+    if la["compile_errors"]:
+        ck.violation({"level": "linkall-compile", "oracle": "one call per interface body, generated from the parsed interface, compiles",
+                      "compiler_output": la["compile_errors"][-2000:]}, nofail=True)
+
+    # ---- three-way scenarios
+    stats = {"kind": {}, "len": {}}
+    dist = {"scenarios": 0, "scenario_lines": 0, "by_generator": {}, "declared_lengths": DL}
+    known_seen = {}
+
+    def account(kind, backend, script):
+        dist["scenarios"] += 1
+        dist["scenario_lines"] += len(script)
+        dist["by_generator"][kind] = dist["by_generator"].get(kind, 0) + len(script)
+        ck.cov["traces_validated_against_impl"] += 1
+        for l in script:
+            t = l.split()
+            nt = t[0].startswith("dl_") or t[0] in ("gotov", "gorelv", "base_read", "zone_read", "coord_info", "family_read", "geo_read",
+                                                    "discrete_read", "array_info", "1to1_read_global", "io_children_names", "gopath")
+            for a in t[1:]:
+                if re.fullmatch(r"([0-9a-f]{2})+", a) and len(a) > 6:
+                    b = bytes.fromhex(a)
+                    if len(b.rstrip(b" ")) > 32 or not b.strip(b" "):
+                        nt = True
+            ck.case(hashlib.sha1(("F" + backend + l).encode()).hexdigest() if nt else None,
+                    sample={"level": "fortran", "backend": backend, "line": l} if (nt and len(ck.cov["samples"]) < 5) else None)
+
+    def one(kind, script, backend, tag):
+        nonlocal found_fail
+        fails, detail = three_fails(exes, script, ck.work, tag, backend, known_out=known_seen)
+        account(kind, backend, script)
+        if fails is None:
+            ex.setdefault("reference_run_problems", []).append({"backend": backend, "kind": kind, "detail": detail})
+        elif fails and not found_fail:
+            small, d2 = shrink(exes, script, ck.work, backend, detail)
+            ck.violation({"level": "fortran", "backend": backend, "kind": kind, "script": small, "detail": d2, "oracle": ORACLE,
+                          "replay_hint": ".build/h/c20f_drv <file> <file2> %s  |  .build/h/c20f_ref f|c <file> <file2> %s" % (backend, backend)})
+            found_fail = True
+
+    for fn_, script in corpus_scripts():
+        for backend in ("adf", "hdf5"):
+            one("corpus:" + fn_, script, backend, "corpus")
+    ex["corpus_scripts"] = len(corpus_scripts())
+    nsc = 4 if big else 1
+    for j in range(nsc):
+        for kind, gen in GENERATORS:
+            for backend in ("adf", "hdf5"):
+                if found_fail:
+                    break
+                one(kind, gen(ck.rng, stats), backend, "s%d_%s" % (j, kind))
+    for key, wit in sorted(known_seen.items()):
+        def f(sub, backend=wit["backend"], key=key):
+            ko = {}
+            three_fails(exes, sub, ck.work, "shrinkk", backend, known_out=ko)
+            return key in ko
+        small = vlib.ddmin(wit["script"], f, max_tests=80)
+        ko = {}
+        three_fails(exes, small, ck.work, "shrinkk", wit["backend"], known_out=ko)
+        w2 = ko.get(key, wit)
+        ck.finding(key, {"level": "fortran", "backend": wit["backend"], "script": small,
+                         "detail": {k: w2[k] for k in ("op", "fortran", "reference")}, "oracle": ORACLE})
+
+    # ---- verdict logic: an obligation broke without a failing input so far -> widen, then report
+    if (broken or new_bad) and len(ck.violations) == n_before:
+        found = False
+        for j in range(6 if not big else 12):
+            for kind, gen in GENERATORS:
+                for backend in ("adf", "hdf5"):
+                    script = gen(ck.rng, stats)
+                    fails, detail = three_fails(exes, script, ck.work, "w%d_%s" % (j, kind), backend, known_out={})
+                    ck.cov["evaluations"] += len(script)
+                    if fails:
+                        small, d2 = shrink(exes, script, ck.work, backend, detail)
+                        ck.violation({"level": "fortran", "backend": backend, "kind": kind, "script": small, "detail": d2, "found_by": "widened search",
+                                      "broken_obligations": broken, "rows_failing_abi_ok": new_bad, "oracle": ORACLE})
+                        found = True
+                        break
+                if found:
+                    break
+            if found:
+                break
+        if not found:
+            ck.violation({"broken_obligations": broken, "rows_failing_abi_ok": new_bad,
+                          "note": "an interface body of cgns_f.F90 no longer matches the C definition it links to (or the table obligation no "
+                                  "longer checks), but every scenario explored still satisfies Fortran == wrapper == direct call and "
+                                  "everything links"}, nofail=True)
+    dist["name_kinds"] = stats["kind"]
+    ex["input_distribution"] = dist
+    ex["wall_s"] = round(time.time() - t0, 1)
+    ck.cov["trusted_base"] += [
+        "gfortran-12 (Debian 12.2.0) as THE Fortran compiler: its argument passing is what is checked, other compilers are not covered",
+        "translators/c20f_iface.py (free-form statement splitter + declaration parser over the preprocessed cgns_f.F90) -- cross-checked by "
+        "the generated link-all program (one call per parsed interface body must compile) and by the driver",
+        "harness/c20f_*.f90, harness/c20f_ref.c (= c20_wrap.c + reference of the module procedures), harness/c20f_help.c",
+        "the specification-side definitions of coq/FtocAbi.v: arg_compat, abi_known",
+    ]
+    ck.assumptions += ["gfortran: default INTEGER = C int = cgint_f, cgenum_t = C int, cgsize_t = 64 bit; one hidden size_t per CHARACTER "
+                       "argument appended in argument order (exercised by the driver, assumed by FtocAbi.abi_ok)"]
+
+
+def run(ck):
+    run_extra(ck, standalone=True)
+    ck.cov["rule"] = ("three-way scenarios: the seeded MLL and cgio scenarios of C20 (minus state_size, which does not link) + module-procedure "
+                      "scenarios (base/zone/coord/family/geo/discrete/array reads with output lengths strlen-1, strlen, strlen+1, cg_goto_f with "
+                      "1-4 label/index pairs, cg_gopath_f) + declared-length battery (CHARACTER(1,8,31,32,33,40,80) variables between guard "
+                      "fields, CHARACTER*(n) arrays), each on ADF and HDF5, Fortran program vs C harness wrapper mode vs direct mode; "
+                      "link-all: one call per interface body and per undeclared wrapper. non-trivial = a dl_/module-procedure/array line or "
+                      "a line with an over-long or blank-only string; distinct by SHA1 of the line")
+
+
+def replay(ck, path):
+    r = json.load(open(path))
+    vlib.build_impl()
+    lib, out = build_fortran_impl()
+    if r.get("level") == "fortran-build":
+        print("replay: property C20 (Fortran build) on this tree: %s" % ("FAILS" if lib is None else "holds"))
+        return 1 if lib is None else 0
+    if lib is None:
+        print("replay: the Fortran-enabled build fails:", out[-800:]); return 1
+    if r.get("level") == "link":
+        info, ifaces, modprocs, wr = c20f_iface.write_gen(repo=vlib.REPO, impl=vlib.IMPL, implf=IMPLF)
+        la = run_linkall(ifaces, sorted(info["wrappers_without_interface"]), ck.work)
+        fails = r["symbol"] in la["undefined"]
+        print("replay: property C20 on this input: %s %s" % ("FAILS" if fails else "holds", json.dumps({"undefined": la["undefined"]})))
+        return 1 if fails else 0
+    if r.get("level") == "fortran" and "script" in r:
+        ref = vlib.build_harness("c20f_ref", ["c20f_ref.c"])
+        drv, derr = build_driver()
+        if drv is None:
+            print("replay: the Fortran driver does not compile against the module:", derr[-800:]); return 1
+        ko = {}
+        fails, d = three_fails({"F": drv, "ref": ref}, r["script"], ck.work, "replay", r["backend"], known_out=ko)
+        if ko and not fails:
+            fails, d = True, {k: {x: v[x] for x in ("op", "fortran", "reference")} for k, v in ko.items()}
+        print("replay: property C20 on this input: %s %s" % ("FAILS" if fails else "holds", json.dumps(d)))
+        return 1 if fails else 0
+    print("replay names a broken obligation / build problem, no input to run:", json.dumps(r)[:800])
+    return 1
